@@ -95,7 +95,8 @@ def _stable_key(x):
     name = getattr(x, 'name', None)
     payload = getattr(x, 'payload', None)
     q = getattr(payload, '__qualname__', '') if payload is not None else ''
-    return (1, type(x).__name__, repr(name), q, repr(sorted(getattr(x, 'parameters', {}) or {})))
+    return (1, type(x).__name__, repr(name), q, repr(sorted(getattr(x, 'parameters', {}) or {})),
+            repr(getattr(x, 'meta', None)))
 
 
 def digest(snap):
